@@ -40,6 +40,7 @@ type Spec struct {
 	Assumptions []string          `json:"assumptions"`
 	Outside     []string          `json:"outside"`
 	Clauses     map[string][]string `json:"clauses,omitempty"`
+	Merge       []string          `json:"merge,omitempty"` // pure functions summarised by ITE merging
 }
 
 type KnownFinding struct {
@@ -151,7 +152,15 @@ func buildOverlay(spec *Spec, specDir string, native bool) (map[string][]byte, e
 			if err != nil {
 				return nil, err
 			}
-			ov[filepath.Join(pdir, "zz_vf_"+filepath.Base(f))] = b
+			txt := string(b)
+			q, imp := "orb.", "\"github.com/paulmach/orb\""
+			if name == "orb" {
+				q, imp = "", ""
+			}
+			txt = strings.ReplaceAll(txt, "package PKGNAME", "package "+name)
+			txt = strings.ReplaceAll(txt, "ORBIMPORT", imp)
+			txt = strings.ReplaceAll(txt, "ORBQ", q)
+			ov[filepath.Join(pdir, "zz_vf_"+filepath.Base(f))] = []byte(txt)
 		}
 	}
 	return ov, nil
@@ -232,13 +241,17 @@ func cmdRun(args []string) int {
 			onlySet[n] = true
 		}
 	}
+	mergeSet := map[string]bool{}
+	for _, m := range spec.Merge {
+		mergeSet[m] = true
+	}
 	baseCfg := func(h *HarnessSpec) *interp.Config {
 		to := h.TimeoutMs
 		if to == 0 {
 			to = 20000
 		}
 		return &interp.Config{InitPkgs: interp.DefaultInitPkgs, TrackPkgs: []string{"github.com/paulmach/orb", "github.com/paulmach/protoscan"},
-			MaxSteps: h.MaxSteps, FloatFP: h.FloatFP, TimeoutMs: to, SolverBin: h.Solver, MaxPaths: h.MaxPaths, Trace: *trace}
+			MaxSteps: h.MaxSteps, FloatFP: h.FloatFP, TimeoutMs: to, SolverBin: h.Solver, MaxPaths: h.MaxPaths, Trace: *trace, MergeFuncs: mergeSet}
 	}
 	// enumerate jobs
 	var jobs []job
